@@ -1,7 +1,7 @@
-\* exhaustive: chains of <= 2 blocks of 0..3 transactions, <= 2 RevertHead, every re-inclusion pattern
+\* exhaustive: chains of <= 3 blocks of 0..1 transactions, <= 3 RevertHead (reorgs of depth <= 3: a transaction moves to another height)
 CONSTANTS
-  MaxBlocks = 2
-  MaxSize = 3
+  MaxBlocks = 3
+  MaxSize = 1
   Lens = {1}
   Kinds <- KindsOne
   EvCounts = {2}
@@ -10,7 +10,7 @@ CONSTANTS
   TxSectionEndsAtReceipts = TRUE
   HashIndexExact = TRUE
   RevertDropsIndexes = TRUE
-  MaxReverts = 2
+  MaxReverts = 3
   MemoFamilies = {}
   MemoPurged = TRUE
 INIT Init
